@@ -71,6 +71,25 @@ def run(res, replay=None):
             order = list(range(1, len(gens)))
             for kk in list(range(60, len(order) + 1, 1)):
                 cases.append((inp, 0, order[:kk], rng.below(1 << 30)))
+    if not replay:
+        # one clip that removes many vertices at once (boundary cycle with tens of planes): a generator above a ring of m neighbours
+        # (clipped first: an m-gonal cone), then the generator below it, whose bisector cuts all the lower vertices off in one clip
+        import math
+        for m in ([24, 40] if tier == "quick" else [17, 18, 24, 33, 40, 64, 65, 100]):
+            ctr, rad, h = [0.5, 0.5, 0.5], 0.2, 0.3
+            # apex of the cone (where the m ring bisectors nearly meet) on the axis; the lower generator's bisector passes just above it
+            z_apex = ctr[2] + (h * h - rad * rad) / (2 * h)
+            z_low = 2 * (z_apex + 0.02) - (ctr[2] + h)
+            gens = [[ctr[0], ctr[1], ctr[2] + h], [ctr[0], ctr[1], z_low]]
+            for i in range(m):
+                a = 2 * math.pi * (i + 0.05 * rng.unit()) / m
+                r = rad * (1.0 + 1e-5 * rng.unit())
+                gens.append([ctr[0] + r * math.cos(a), ctr[1] + r * math.sin(a), ctr[2] + 1e-5 * (rng.unit() - 0.5)])
+            inp = {"family": "bigclip", "dim": 3, "periodic": False, "anchor": [0.0, 0.0, 0.0], "width": [1.0, 1.0, 1.0], "gens": gens, "mask": None}
+            g = gens[0]
+            order = sorted(range(1, len(gens)), key=lambda i: sum((gens[i][c] - g[c]) ** 2 for c in range(3)))
+            for kk in (len(order) - 1, len(order)):
+                cases.append((inp, 0, order[:kk], rng.below(1 << 30)))
     wd = os.path.join(C.CACHE, "run", "c18")
     os.makedirs(wd, exist_ok=True)
     cf = os.path.join(wd, "clip.cases")
